@@ -832,6 +832,8 @@ func init() {
 			w.StartServe(sdone)
 			w.With("W3", w.A("1"))
 			vsched.AwaitQuiescence()
+			// nothing is running any more: the Serve call of the first start must have returned by now
+			vsched.Emit(Mon, "expect-serve-returned 1")
 			shutdown(w)
 			vsched.Recv(sdone)
 			vsched.Recv(sdone)
